@@ -203,12 +203,13 @@ def status_web(f):
     return web
 
 
-def flag_web(f):
+def flag_web(f, seeds=()):
     """integer phis / selects and the comparisons, casts and logic computed
     from them.  Operands outside the web (arithmetic, loads, other calls)
     evaluate to "unknown", so loop counters contribute at most their constant
     initial value and the set of valuations stays finite."""
     web = set(i.id for i in f.insts() if i.op in ("phi", "select") and i.ty.startswith("i"))
+    web |= set(seeds)        # results of the checked calls: known on the path where that call is assumed to fail
     changed = True
     while changed:
         changed = False
@@ -242,6 +243,7 @@ def explore(rep, m, f, fail, group):
         rep.instance("C19.D1", 1, {"tool": group, "function": f.name, "callee": cal, "failure_values": sorted(fail[cal])})
     if f.d["ret"] == "void":
         return
+    web = flag_web(f, seeds=checked.keys())
     # ---- exploration
     out_alloca = None
     for c in f.calls("safe_file_open_write"):
@@ -342,6 +344,8 @@ def explore(rep, m, f, fail, group):
         if t.op == "br" and t.ops and len(t.succs) == 2:
             cv = ceval.value(env, t.ops[0]) if ir.is_local(t.ops[0]) and t.ops[0] in web else None
             tc = tests.get(bname)
+            if cv is not None and tc is not None and failed == tc.id:
+                tested_sites.add(tc.id)
             if cv is None and tc is not None and failed == tc.id:
                 cv = _eval_with(f, t.ops[0], tc, fval)
                 tested_sites.add(tc.id)
